@@ -14,7 +14,9 @@ def parse(body, pre=''):
     from plasTeX.TeX import TeX
     t = TeX()
     t.input('\\documentclass{article}%s\\begin{document}%s\\end{document}' % (pre, body))
-    return t.parse()
+    from util import time_limit
+    with time_limit(10):
+        return t.parse()
 
 
 # ----------------------------------------------------------------------------------------------- verbatim environment
